@@ -136,6 +136,13 @@ def _operandrepr(operand):
     return repr(operand)
 
 
+def _calloperand(operand, obj, args):
+    # nested expressions receive all call arguments (list_ reads the second one), plain callables only the first
+    if isinstance(operand, ExprMixin):
+        return operand(obj, *args)
+    return operand(obj) if callable(operand) else operand
+
+
 class UniExpr(ExprMixin):
 
     def __init__(self, op, operand):
@@ -149,7 +156,7 @@ class UniExpr(ExprMixin):
         return repr(self)
 
     def __call__(self, obj, *args):
-        operand = self.operand(obj) if callable(self.operand) else self.operand
+        operand = _calloperand(self.operand, obj, args)
         return self.op(operand)
 
 
@@ -167,8 +174,8 @@ class BinExpr(ExprMixin):
         return repr(self)
 
     def __call__(self, obj, *args):
-        lhs = self.lhs(obj) if callable(self.lhs) else self.lhs
-        rhs = self.rhs(obj) if callable(self.rhs) else self.rhs
+        lhs = _calloperand(self.lhs, obj, args)
+        rhs = _calloperand(self.rhs, obj, args)
         return self.op(lhs, rhs)
 
 
@@ -249,7 +256,7 @@ class FuncPath(ExprMixin):
         if self.__operand is None:
             return FuncPath(self.__func, operand) if callable(operand) else operand
         else:
-            return self.__func(self.__operand(operand) if callable(self.__operand) else self.__operand)
+            return self.__func(_calloperand(self.__operand, operand, args))
 
 
 this = Path("this")
